@@ -115,6 +115,20 @@ func zzOp(op int, tmpl, full *ast.DataMessage) (string, []byte, []string) {
 			return "rejected", nil, nil
 		}
 		return "", m.ToBytes(), nil
+	case 13: // SML texts whose diagnostics come out of the parser's recovery from a refusing constructor
+		out := []string{}
+		for _, t := range []string{"S1F1 W\n<A[5..2] x>\n.", "S2F1\n<L <A \"x\"> ... ...>\n.", "S3F1 <L x <U1 x>>."} {
+			msgs, errs, warns := Parse(t)
+			out = append(append(append(out, rt.N("n", len(msgs))), errs...), warns...)
+		}
+		return "", nil, out
+	case 14: // a long rejected text: the parser gives up at the second token, 20 KiB of tokens follow
+		t := "S1F1 W\n<Q 1>\n<L"
+		for i := 0; i < 2600; i++ {
+			t += " <U1 7>"
+		}
+		msgs, errs, warns := Parse(t + ">\n.")
+		return rt.N("n", len(msgs)), nil, append(errs, warns...)
 	case 11: // rejected SML text
 		msgs, errs, warns := Parse("S1F1 W <L <U1 300> <A 'x>\n.\nS2F1 <Q>.")
 		return rt.N("n", len(msgs)), nil, append(errs, warns...)
@@ -174,7 +188,7 @@ func ZZ_C17_history() {
 	rt.Assume(rt.And(txt[0] == 'a', txt[1] == 'b')) // the text content is not what is explored here
 	tmpl, full := zzSharedObjects()
 	s0, b0, v0 := zzOp(b, tmpl, full)
-	a := rt.Choice("a", 13)
+	a := rt.Choice("a", 15)
 	// natively the pair is repeated (what a recycled object carries over depends on the runtime)
 	for r := 0; r < rt.Iterations(16); r++ {
 		zzOp(a, tmpl, full)
